@@ -302,6 +302,26 @@ CHECKS = {
               "deviations not counted against C16: load docstring priority order differs from the code (D16); one NAC tensor "
               "written alone is not loadable."),
         design="5/C16 and 11.2"),
+    "C18": dict(
+        text=("C18 is decided on two TLA+ models bound to the real front end. CLI.tla runs over the generated table "
+              "CLITable.tla (all 111 configuration keys of settings.py as 107 rows with 194 example values, 115 "
+              "parameter-to-settings rules, defaults of both commands) and models how tags and options become the settings "
+              "object, with the requirements RoutesEquivalent (file = option, every option spelling, explicit zeros), "
+              "OptionOverridesTag and MixedIndependent; every tag x value, every override pair and pairs of tags are driven "
+              "through the real PhonopyConfParser by file, by option and split between the two, and TLC (CLITrace) judges the "
+              "logged settings and compares them with the step machine. CLIWorkflow.tla models phonopy_script.main for "
+              "'phonopy' and 'phonopy-load': inputs present -> library calls -> files written, with WorkflowPreconditions, "
+              "OutputsComputed, CommandDefaults and ModePrecedence; the real commands run the workflow (-d, -f/--fz, "
+              "mesh/band/qpoints/DOS/PDOS/thermal properties/displacements, writefc/readfc/NAC/conf files/summary) for three "
+              "catalogue crystals with exact spring-model forces x vasp/qe/abinit; the machine's calls are replayed on the "
+              "library and every written file is compared at its printed precision; the summary is reloaded with "
+              "phonopy.load. TLC (CLIWorkflowTrace) judges status, file set, verdicts and the fc-solver decision."),
+        note=("Trusted: harness/c18_table.py (hand-written from doc/setting-tags.md, doc/command-options.md and the argparse "
+              "help; drift against docs, argparse and settings defaults checked on every run); own emitters for "
+              "POSCAR/QE/ABINIT inputs and outputs; yaml/h5py readers. Bounds: configurations of at most two tags; 3 of 16 "
+              "calculators; symfc, alm, seekpath, pypolymlp absent (phonopy-load's default solver checked at the decision "
+              "level). Plotting, --symmetry, anime/modulation/irreps execution not compared."),
+        design="5/C18 and 11.2"),
 }
 
 NOT_BUILT = "check under construction in this round; not yet claimed"
